@@ -84,6 +84,10 @@ def cli_cases(rng, n):
     junk = ["", " ", "0x", "zz", "-1", "99999999999999999999", "[", "]", "[[[[[[", "(" * 40, "sha256(", "a" * 3000, "0x" + "ff" * 600, "OP_", "\x01\x02", "%s%s%n", "0x0", "1e999", "-",
             "tb1q", "BC1QW508D6QEJXTDG4Y5R3ZARVARY0C5XW7KV8F3T4", "bc1" + "q" * 90, "1" * 40, "aa:bb", "aa:", ":", ",,,", "=", "--", "-f", "+ALL", "-" * 400]
     spends = [S.build(rng, k) for k in ("p2pkh", "p2sh", "p2wsh", "p2tr-script", "p2tr-key")]
+    def mhex(h):
+        b = bytes.fromhex(h)
+        for _ in range(rng.randrange(1, 3)): b = T.mutate(rng, b)
+        return b.hex()
     for _ in range(n):
         r = rng.random()
         if r < 0.25:
@@ -94,8 +98,12 @@ def cli_cases(rng, n):
             n_s = rng.choice(["0", "1", "2", "3", "-1", "300", "x", "", "99999999999"])
             scripts = [rng.choice(["51", "0x51", "[OP_1]", "", "zz", "00" * 600, "6a", "[", "sha256(0x01)"] + junk[:6]) for _ in range(rng.randrange(0, 4))]
             rest = [rng.choice(["0", "1", "2", "-1", "7", "x", "", "99999999999", "0x00"]) for _ in range(rng.randrange(0, 3))]
-            opts = rng.choice([[], [], ["--tx=" + rng.choice(txs + junk)], ["--txin=" + rng.choice(txs + junk)], ["-k" + rng.choice(["", "00" * 32, "zz"])], ["--sig=" + rng.choice(["", "00" * 64, "zz"])],
-                               ["--addrprefix=" + rng.choice(["", "bc", "BC", "tb", "x" * 90, "1", "é"])], ["--privkey=" + rng.choice(["", "00" * 32, "01" * 32, "ff" * 32])]])
+            c = rng.choice(spends)
+            pool = [["--tx=" + rng.choice(txs + junk + [c["spend"], mhex(c["spend"])])], ["--txin=" + rng.choice(txs + junk + [c["fund"], mhex(c["fund"])])],
+                    ["--tx=" + rng.choice([c["spend"], mhex(c["spend"]), "00", ""]), "--txin=" + rng.choice([c["fund"], mhex(c["fund"]), "00", ""])],
+                    ["-k" + rng.choice(["", "00" * 32, "zz"])], ["--sig=" + rng.choice(["", "00" * 64, "zz", "0x"])],
+                    ["--addrprefix=" + rng.choice(["", "bc", "BC", "tb", "x" * 90, "1", "Bc"])], ["--privkey=" + rng.choice(["", "00" * 32, "01" * 32, "ff" * 32])], ["-v"], ["-q"], ["--nosuch"]]
+            opts = sum(rng.sample(pool, rng.randrange(0, 4)), [])
             out.append(("tap", opts + [key, n_s] + scripts + rest, None))
         else:
             c = rng.choice(spends)
